@@ -1,4 +1,5 @@
 """C11 — MEME-style score distribution agrees with the exact tail within its resolution."""
+from translate import dist_skel
 
 
 def _fields(line):
@@ -33,13 +34,15 @@ SPEC = dict(
     props_file="C11.v",
     module="LMDist.C11",
     harness_bin="dist",
+    release_n=30,   # release-profile replay: corpus + the first generated cases (no overflow-dependent site is left in dist.rs)
+    translate=dist_skel.translate,
     ml_modules=["dist_model"],
     n={"quick": 64, "thorough": 1000},
     search_n={"quick": 192, "thorough": 1000},
     nontrivial=nontrivial,
     histogram=histogram,
     rule="DNA (K=5) scoring matrices of width 1..8 (all 4^M / 5^M words enumerable; kind `large`: width 9..12 quick / 9..16 thorough, "
-         "structural checks and bit-exact replay only) and protein (K=21) matrices of width 1..3 (20^M / 21^M words) "
+         "structural checks and bit-exact replay only) and protein (K=21) matrices of width 1..3 (20^M / 21^M words; widths 4..6, thorough ..8: replay only) "
          "in 16 rotating kinds: random f32 cells, cells quantised to "
          "1/8..1 (ties, exact half steps), count matrices -> frequencies -> log-odds through the library, finite "
          "wildcard column, constant matrices, `roundup` (width 6..8, integer offset/scale, every row maximum placed just "
@@ -70,6 +73,9 @@ SPEC = dict(
         "hand-written OCaml driver ocaml/dist/driver.ml (parsing, bit-pattern comparison with the model, choice of "
         "which probes are handed to check_C11_fails for the bracket check under the time budget, reporting of panics "
         "inside the domain, labelling of failures for the known-findings match)",
+        "translator translate/dist_skel.py (regex / brace-matching reader of dist.rs: CDF_RANGE, the statement skeleton "
+        "of From<ScoringMatrix> for ScoreDistribution and of the methods, loop bounds, clip sites, skip marker, rounding "
+        "function; it never guesses: an unreadable source is a broken obligation)",
         "Rust harness harness/src/bin/dist.rs (generator, calls of to_score_distribution/sf/pvalue/score/min_pvalue "
         "under catch_unwind, dev profile with overflow checks)",
         "std's slice::binary_search_by as read from the installed toolchain source (branch-free loop), re-validated "
